@@ -138,7 +138,19 @@ func (v Val) ToGo() any {
 			out[kv.K] = kv.V.ToGo()
 		}
 		return out
-	case "tl": // typed slice ([]string, []int, []float64, []bool): S names the element kind
+	case "tl": // typed slice ([]string, []int, []float64, []bool): S names the element kind; B: a nil slice of that type
+		if v.B && len(v.L) == 0 {
+			switch v.S {
+			case "int":
+				return []int(nil)
+			case "float":
+				return []float64(nil)
+			case "bool":
+				return []bool(nil)
+			default:
+				return []string(nil)
+			}
+		}
 		switch v.S {
 		case "int":
 			out := make([]int, len(v.L))
@@ -208,6 +220,9 @@ func (v Val) String() string {
 		parts := make([]string, len(v.L))
 		for i := range v.L {
 			parts[i] = v.L[i].String()
+		}
+		if v.B && len(v.L) == 0 {
+			return "tl:" + v.S + "(nil)"
 		}
 		return "tl:" + v.S + "[" + strings.Join(parts, ",") + "]"
 	case "sl":
